@@ -90,29 +90,40 @@ func runSelftests(prop, repo, verif string) map[string]any {
 			res := result{m: m}
 			args := []string{"check", prop, "--tier", "quick", "--no-write", "--repo", repo, "--verif", verif}
 			skipped := false
+			content := map[string][]byte{} // edits to the same file accumulate
+			var order []string
 			for _, ed := range append([]edit{{m.File, m.Old, m.New}}, moreEdits[m.Name]...) {
-				src, err := os.ReadFile(filepath.Join(repo, ed.File))
-				if err != nil {
-					res.outcome, res.note = "skipped", "file missing"
-					skipped = true
-					break
+				src, seen := content[ed.File]
+				if !seen {
+					var err error
+					src, err = os.ReadFile(filepath.Join(repo, ed.File))
+					if err != nil {
+						res.outcome, res.note = "skipped", "file missing"
+						skipped = true
+						break
+					}
+					order = append(order, ed.File)
 				}
 				if bytes.Count(src, []byte(ed.Old)) != 1 {
 					res.outcome, res.note = "skipped", "pattern does not occur exactly once in the current source (source changed)"
 					skipped = true
 					break
 				}
-				mut := bytes.Replace(src, []byte(ed.Old), []byte(ed.New), 1)
-				tmp, err := os.CreateTemp("", "kvlint-mut-*.go")
-				if err != nil {
-					res.outcome, res.note = "skipped", err.Error()
-					skipped = true
-					break
+				content[ed.File] = bytes.Replace(src, []byte(ed.Old), []byte(ed.New), 1)
+			}
+			if !skipped {
+				for _, f := range order {
+					tmp, err := os.CreateTemp("", "kvlint-mut-*.go")
+					if err != nil {
+						res.outcome, res.note = "skipped", err.Error()
+						skipped = true
+						break
+					}
+					tmp.Write(content[f])
+					tmp.Close()
+					defer os.Remove(tmp.Name())
+					args = append(args, "--overlay", f+"="+tmp.Name())
 				}
-				tmp.Write(mut)
-				tmp.Close()
-				defer os.Remove(tmp.Name())
-				args = append(args, "--overlay", ed.File+"="+tmp.Name())
 			}
 			if skipped {
 				results[i] = res
@@ -130,6 +141,13 @@ func runSelftests(prop, repo, verif string) map[string]any {
 			}
 			if strings.Contains(string(out), "construct=load") || strings.Contains(string(out), "construct=analysis-panic") {
 				res.outcome, res.note = "invalid", "mutant does not type-check or analysis failed: "+firstLines(string(out), 6)
+			} else if m.Rule == "brittle" {
+				// a behaviour-preserving variant that a rule is KNOWN to report today (documented limit of that rule)
+				if len(seen) == 0 {
+					res.outcome, res.note = "quiet", "behaviour-preserving variant (listed as a known limit): no rule fired"
+				} else {
+					res.outcome, res.note = "known-limit", fmt.Sprintf("behaviour-preserving variant that the rule is known to report (documented limit): %v", seen)
+				}
 			} else if m.Rule == "silent" {
 				if len(seen) == 0 {
 					res.outcome, res.note = "quiet", "behaviour-preserving variant: no rule fired"
@@ -145,7 +163,7 @@ func runSelftests(prop, repo, verif string) map[string]any {
 		}(i, m)
 	}
 	wg.Wait()
-	killed, applicable, skipped, benign, quiet := 0, 0, 0, 0, 0
+	killed, applicable, skipped, benign, quiet, knownLimits := 0, 0, 0, 0, 0, 0
 	var details []map[string]any
 	for _, r := range results {
 		switch r.outcome {
@@ -159,13 +177,15 @@ func runSelftests(prop, repo, verif string) map[string]any {
 			quiet++
 		case "FALSE-ALARM":
 			benign++
+		case "known-limit":
+			knownLimits++
 		default:
 			applicable++
 		}
 		details = append(details, map[string]any{"mutant": r.m.Name, "file": r.m.File, "expects": r.m.Rule + " " + r.m.Constr, "outcome": r.outcome, "note": r.note})
 	}
 	sort.Slice(details, func(i, j int) bool { return details[i]["mutant"].(string) < details[j]["mutant"].(string) })
-	return map[string]any{"mutants_total": len(ms), "mutants_applicable": applicable, "mutants_killed": killed, "mutants_skipped": skipped, "benign_variants": benign, "benign_variants_quiet": quiet, "details": details,
+	return map[string]any{"mutants_total": len(ms), "mutants_applicable": applicable, "mutants_killed": killed, "mutants_skipped": skipped, "benign_variants": benign, "benign_variants_quiet": quiet, "benign_variants_reported_known_limit": knownLimits, "details": details,
 		"meaning": "validation of the analyser itself on overlay rewrites of the current source; not property coverage"}
 }
 
